@@ -1,4 +1,25 @@
 """C05 — an abort request stops work promptly and still yields a consistent answer."""
+# SIZE AUDIT (quick tier), measured on cases('quick', Random(1)): bit length of n handed to factor() with an abort predicate
+# sizes the code supports: factor() refuses above 500 bits; siqs / mpqs refuse n*k above 448 bits (clean failure at once), qs above 400;
+# ecm / pm1 / auto run on ZmodN of 1..8 words; ecm128 up to 128 bits. Poll points: factor_impl (once per sieve call), the sieves (per
+# polynomial / block), ecm (per curve); P-1, rho and ECM128 have none.
+#   selector   quick max  thorough max  supported   boundary lengths reached by quick BEFORE this audit
+#   siqs       280        280           ~440        129 (1), 257 (1); 65: none
+#   mpqs       230        230           ~440        none of 64/65/128/129
+#   qs         189        189           400         none
+#   auto       250        250           500         none; nothing above 250 bits
+#   ecm        200        200           500         none; nothing above 200 bits (ZmodN of 5..8 words never ran under an abort predicate)
+#   ecm128     110        110           128         none (127/128 never)
+#   pm1        119        120           500         none
+# Added: boundary_cases (both tiers, first, own rng stream, ~60 requests of a few ms, two aborted ecm runs of 3 s, two near-limit runs: ~11 s): every flip
+# kind on inputs that finish quickly at exactly 65, 128, 129, 193, 257, 385, 449, 500 bits (auto / ecm / pm1 / ecm128 / the sieves at 65
+# and 129), exhaustive flip scans of auto at 257 and 500 bits (thorough: ecm at 500 bits), and two runs where the flip really lands inside the
+# work at the top of the range: ecm on a hard 500-bit semiprime (release: ~3 s after the flip, the rest of the or_else chain of
+# ecm_only still starts) and siqs with a pool at 400 bits.
+# Observed, NOT judged by this property's latency definition (latency counts from the first poll that answered true): stages without a
+# poll point grow with the size of n: Auto on a hard 480..500-bit n returns 59..62 s (release; 75 s checked) after an abort request at
+# 300 ms because pm1_quick (B1 = 1.6e8 above 470 bits) is never interrupted (15 s at 430 bits, 4 s at 380); `pm1` on 300 bits: 11 s,
+# never polled; siqs at 330 bits polls for the first time after 7 s of set-up.
 from vlib.pipeline import Case
 from vlib import gen
 from props import factor_common as fc
@@ -14,7 +35,9 @@ THEOREMS = ['Ymq.C05.abort_never_wrong_product', 'Ymq.C05.abort_consistent', 'Ym
 PROFILES = ["release", "chk"]
 TIMEOUT = 120.0
 LAT_BOUND_MS = 15000
-RULE = ("abort predicate flipping at seeded instants: by poll count (0,1,2,3,5,10,50,500) and by elapsed time (0,1,5,20,100,400 ms), "
+RULE = ("boundary family first, in both tiers: flips on inputs of exactly 65, 127..129, 193, 257, 385, 449, 500 bits that finish in milliseconds "
+        "(auto/ecm/pm1/ecm128/sieves), flip scans at 257 and 500 bits, ecm on a hard 500-bit and siqs with a pool on a hard 400-bit input; then: "
+        "abort predicate flipping at seeded instants: by poll count (0,1,2,3,5,10,50,500) and by elapsed time (0,1,5,20,100,400 ms), "
         "selectors auto/qs/mpqs/siqs/ecm/ecm128/pm1, single and multi-threaded, on 60-150 bit inputs whose run is long enough for "
         "the flip to land before/between/inside stages; checked: returns, no crash, product = n, latency after the first `true` poll "
         f"<= {LAT_BOUND_MS} ms; non-trivial = the predicate was polled at least once; distinct by request line")
@@ -32,8 +55,53 @@ UNMODELLED = ["poll points inside the sieves / ECM (siqs.rs, mpqs.rs, qsieve.rs,
 HYPOTHESES = ['OracleOK', 'SelectorPre']
 
 
+def _fork(rng, label):
+    """own stream for the boundary family: depends on the run's seed, leaves the stream of the older families untouched"""
+    import random
+    return random.Random(f"{label}:{rng.getstate()[1][:4]}")
+
+
+def _exact_product(rng, bits, pbits):
+    """p*q of EXACTLY `bits` bits, p a prime of pbits bits"""
+    while True:
+        p, q = gen.rand_prime(rng, pbits), gen.rand_prime(rng, bits - pbits + rng.randrange(2))
+        if p != q and (p * q).bit_length() == bits:
+            return p * q
+
+
+# (selector, exact bit length of n, bit length of the smaller prime factor)
+BOUNDARY_SPEC = [("siqs", 65, 32), ("mpqs", 65, 32), ("qs", 65, 32), ("siqs", 129, 64), ("auto", 65, 32), ("auto", 129, 64),
+                 ("ecm128", 127, 30), ("ecm128", 128, 64), ("ecm", 129, 30), ("ecm", 193, 30), ("ecm", 257, 30), ("ecm", 449, 22),
+                 ("ecm", 500, 22), ("pm1", 129, 24), ("pm1", 257, 24), ("pm1", 500, 22), ("auto", 257, 30), ("auto", 385, 22),
+                 ("auto", 500, 22)]
+
+
+def boundary_cases(rng, tier):
+    """abort predicates at the size classes the random families never reach (see SIZE AUDIT): inputs that finish within
+    milliseconds at every word count up to the 500-bit limit, flip scans there, and two runs at the top of the range in which
+    the flip lands inside the work"""
+    quick = tier == "quick"
+    flips = ["abortpolls=0", "abortpolls=1", "abortpolls=3", "abortms=0"] + ([] if quick else ["abortpolls=2", "abortpolls=10", "abortms=1", "abortms=5"])
+    for j, (alg, bits, pb) in enumerate(BOUNDARY_SPEC):
+        n = _exact_product(rng, bits, pb)
+        for i, fl in enumerate(flips):
+            toks = [fl] + (["threads=2"] if i == 2 and alg != "ecm128" else [])
+            if alg == "ecm" and quick and (i != j % 4 or bits not in (257, 500)):
+                # an aborted run of the `ecm` selector costs 3 s whatever the size (every later stage of ecm_only's or_else chain
+                # still starts and polls each of its curves: 28040 polls): quick: one flip at 257 and at 500 bits, release only
+                continue
+            yield Case(" ".join([f"factor {n} {alg}"] + toks), k=False, tag=f"edge{bits}b",
+                       profiles=None if i < 2 and alg != "ecm" else ["release"])
+    for alg, bits, pb in (("auto", 257, 30), ("auto", 500, 22)) + (() if quick else (("ecm", 500, 22),)):
+        yield Case(f"abort_scan {_exact_product(rng, bits, pb)} {alg} 0 300", k=False, tag=f"scan-edge{bits}b", timeout=300)
+    hard = lambda bits: gen.rand_prime(rng, bits // 2) * gen.rand_prime(rng, bits - bits // 2)
+    yield Case(f"factor {hard(500)} ecm abortms=300", k=False, tag="edge500b-hard", timeout=120, profiles=["release"])
+    yield Case(f"factor {hard(400)} siqs abortms=300 threads=2", k=False, tag="edge400b-hard", timeout=120, profiles=["release"])
+
+
 def cases(tier, rng, extended=False):
     quick = tier == "quick"
+    yield from boundary_cases(_fork(rng, "C05-boundary"), tier)
     reps = 3 if quick else 12
     if extended:
         reps *= 4
